@@ -15,7 +15,7 @@ PROP = "C09"
 META = {
  "engine": "P-pattern-algebra",
  "text": "Coq theorems (Props/C09.v, closed under the global context) prove on the executable model of the pattern classes (Pat/Step.v, transcribed from core.py / sequence.py / scalar.py): once a pattern of the sticky fragment fpat (constants, sequences of scalars, series, ranges, geometric series, reverse, ping-pong with scalar terminating parameters; the 15 operators, &, abs, int, skip-if, references, stutter, counter, pad, pad-to-multiple, collapse, no-repeats, changed, diff, round, wrap, loop, subsequence, index-of, dict-key, array-index, concatenate over them, nested to any depth; closed under next(): C09_fragment_closed) has raised StopIteration, no later next() yields a value (C09_sticky, C09_sticky_transformers: per-class invariants, induction on the nesting; still open, C09_sticky_remaining_classes_partial: PDict, PArrayIndex over a literal list and pattern items, covered by the correspondence and the oracle only); nextn(n) is the list of the first min(n, remaining) results of repeated next and leaves the object where those calls leave it, all(m) likewise followed by reset(), len is the length of all(); copy() is the identity on the tree model, so a copy continues with exactly the outputs of the original; for pattern GRAPHS with shared sub-pattern objects (Pat/Dag.v: heap of cells, operator expressions and PDict roots over addresses, copy = deepcopy with one memo) every script of next/nextn/copy on any number of handles observes what the original alone produces at the handle's position - continuation and independence for all DAGs (C09_dag_copy_interleavings), tied to the repository by generated DAG programs with copy-heavy scripts, judged against a fresh build and compared with the model inside Coq; several instances of one class and their copies alive together, each rewound at different moments (Pat/Instances.v, generic over objects whose methods are functions of the object alone; Pat/LSystem.v for PLSystem, whose bracket stack is per-object state): every object observes what it observes alone (C09_instances_independent, C09_instances_copy, C09_lsystem_instances_independent, C09_lsystem_sticky), tied to the repository by the instances stream (PLSystem with bracketed rules, engine-P expressions, seeded stochastic patterns; positions per handle, a rewind puts that handle back to 0 and no other). The model is tied to the repository on every run by scripts interleaving next/nextn/all/len/for/copy on up to four handles, compared inside Coq; an implementation-only oracle checks stickiness, helper results against repeated next() of a fresh instance, and independence of copies. For 'a drained track stays drained' Pat/Drained.v models Timeline.tick/Track.tick for a note track over any stream (in particular the stochastic machines of Pat/Chance.v, generator as data): once the stream is dead the re-polling track plays nothing more and finishes when its last note-off is due (C09_drained_track_stays_drained); PShuffle and PWhite are sticky in any state for any generator (C09_pshuffle_sticky, C09_pwhite_sticky); tied to the code by comparing, inside Coq, ticks-until-removal and notes of real tracks with gate > 1 and the StopIteration shape of PShuffle/PWhite. A library stream (oracle only) runs every Pattern subclass of isobar.pattern (list read from the live package, fail closed; seeded stochastic classes, nestings over them) through >= 6 polls after the first StopIteration, helper/copy scripts around and after the end, and a Track whose last note outlasts the stream.",
- "note": "Trusted: Coq kernel + VM; the harness; copy.deepcopy itself (modelled as copy_root: one memo, every reachable cell copied once; the correspondence with interleavings validates it against the implementation). Sharing below classes other than the operators and PDict (PSequence items, PConcatenate inputs, PStutter count ...) is judged by the oracle only; stickiness and reset() of graphs are not judged. Revival by design is excluded from the stickiness oracle and theorems: PReset (re-arms its input), terminating parameters given as varying patterns (re-read at every step, C12). PArrayIndex over a list containing patterns with a pattern index is not by design: known finding C09-parrayindex-revives, generated by its own stratum and attributed by the proposed repair. Classes outside the model (PPermut, PArpeggiator, stochastic, PFade*, tonal, PMap* ...) are judged by the oracle only (library stream); classes drawing from the process-wide random module (PExplorer, PFadeNotewiseRandom, PLSystem '?') for stickiness and track end only; PStaticPattern, PW*, PLFO, PMIDIControl, PMonomeArcControl are excluded (need a running timeline / hardware). The drained-track model covers constant duration and gate on the quarter-tick grid. Known findings: PFadeNotewise/PFadeNotewiseRandom revive, PPatternGeneratorAction raises TypeError after its StopIteration.",
+ "note": "Trusted: Coq kernel + VM; the harness; copy.deepcopy itself (modelled as copy_root: one memo, every reachable cell copied once; the correspondence with interleavings validates it against the implementation). Sharing below classes other than the operators and PDict (PSequence items, PConcatenate inputs, PStutter count ...) is judged by the oracle only; stickiness and reset() of graphs are not judged. Revival by design is excluded from the stickiness oracle and theorems: PReset (re-arms its input), terminating parameters given as varying patterns (re-read at every step, C12). PArrayIndex over a list containing patterns with a pattern index used to revive (repaired: C09-parrayindex-revives); it is generated by its own stratum and judged like every other class. Classes outside the model (PPermut, PArpeggiator, stochastic, PFade*, tonal, PMap* ...) are judged by the oracle only (library stream); classes drawing from the process-wide random module (PExplorer, PFadeNotewiseRandom, PLSystem '?') for stickiness and track end only; PStaticPattern, PW*, PLFO, PMIDIControl, PMonomeArcControl are excluded (need a running timeline / hardware). The drained-track model covers constant duration and gate on the quarter-tick grid. Known findings: PFadeNotewise/PFadeNotewiseRandom revive, PPatternGeneratorAction raises TypeError after its StopIteration.",
 }
 
 REFN = 40          # calls of next() recorded for the reference run
@@ -49,8 +49,6 @@ def revives_by_design(x):
             return "PRange.end/step is a pattern"
         if n.cls == "PSubsequence" and any(is_pat(v) for v in a[1:]):
             return "PSubsequence.offset/length is a pattern"
-        if n.cls == "PArrayIndex" and isinstance(a[0], list) and any(is_pat(v) for v in a[0]) and len(a) > 1 and is_pat(a[1]):
-            return "PArrayIndex over a list containing patterns, with a pattern index"     # known finding C09-parrayindex-revives: check_arrayindex_revival
         if n.cls == "PDictKey" and len(a) > 1 and is_pat(a[1]):
             return "PDictKey.key is a pattern"
     return None
@@ -1006,12 +1004,11 @@ model_exprs_by_src = {}
 
 
 # ==========================================================================================================
-# PArrayIndex stratum: a literal list with PATTERN items.  With a scalar index the class is sticky (theorem
-# C09_more_sticky, GP_arrayindex_fixed) and is judged like every other class.  With a PATTERN index it yields values
-# again after a StopIteration - the StopIteration of the selected item leaks out, the next index selects a live one:
-# known finding C09-parrayindex-revives (findings/C09-parrayindex-revives.md; the model transcribes the code,
-# Props/C09More.v C09_more_arrayindex_revives).  A revival is attributed to the known finding only if it DISAPPEARS
-# when the proposed repair is installed (harness/impl/c09_repaired_impl.py); anything else is an ordinary violation.
+# PArrayIndex stratum: a literal list with PATTERN items, with a pattern index (3/4) or a scalar index.  Until the
+# repair C09-parrayindex-revives (findings/C09-parrayindex-revives.md) the StopIteration of the selected item leaked
+# out and the next index brought the object back to life; it now stays exhausted until reset().  The model carries
+# the flag (Pat/Syntax.v PArrayIndex .. exhausted) and every PArrayIndex is sticky (Props/C09More.v
+# C09_more_arrayindex_sticky).  Judged like every other class; compared with the model.
 # ==========================================================================================================
 def arrayindex_expr(rng, gen, pattern_index):
     n = rng.randint(2, 4)
@@ -1048,26 +1045,15 @@ def check_arrayindex_revival(run, gen):
             run.nontrivial("sticky-arrayindex " + to_source(c.expr))
         if judge_sticky(c.obs) is not None:
             reviving.append(c)
-    repaired = [Case(c.expr, c.ops, "repaired") for c in reviving]
-    run_impl(run, repaired, shards=4, script="c09_repaired_impl")
-    known = other = 0
-    for c, rc in sorted(zip(reviving, repaired), key=lambda p: size(p[0].expr)):
+    for n, c in enumerate(sorted(reviving, key=lambda c: size(c.expr))):
+        if n >= 3:
+            break
         d = judge_sticky(c.obs)
-        gone = (not rc.status) and judge_sticky(rc.obs) is None
-        if gone:
-            known += 1
-            sig = {"kind": "sticky", "via": "arrayindex-pattern-items-pattern-index", "class": root_cls(c.expr)}
-        else:
-            other += 1
-            sig = {"kind": "sticky", "class": root_cls(c.expr), "after": "raise" if d["observed"].startswith("raise") else "value",
-                   "stratum": "arrayindex"}
-        if (known if gone else other) > 3:
-            continue
-        run.violation(sig, {
+        run.violation({"kind": "sticky", "class": root_cls(c.expr), "after": "raise" if d["observed"].startswith("raise") else "value",
+                       "stratum": "arrayindex"}, {
             "case": {"expr": to_source(c.expr), "expr_json": to_json(c.expr), "ops": [list(o) for o in c.ops]},
             "expected": "StopIteration on every next() after call %d (the first StopIteration)" % d["first_stop"],
             "observed": "call %d: %s" % (d["index"], d["observed"]), "observed_outputs": c.obs_pretty(),
-            "with_repair_findings_C09_parrayindex_revives": "stays exhausted" if gone else "still revives",
             "python": replay_snippet(c.expr, c.ops[:d["index"] + 1])})
     run_model(run, cases)
     for c in cases:
@@ -1077,10 +1063,10 @@ def check_arrayindex_revival(run, gen):
     if bad:
         small = shrink(run, bad[0], rounds=4)
         run.violation({"kind": "correspondence", "class": root_cls(small.expr), "stratum": "arrayindex"}, {
-            "broken": "correspondence Pat/Step.v (PArrayIndex over a literal list) vs the implementation: C09_more_arrayindex_revives / C09_more_sticky no longer describe this code",
+            "broken": "correspondence Pat/Step.v (PArrayIndex over a literal list) vs the implementation: C09_more_arrayindex_sticky / C09_more_sticky no longer speak about this code",
             "case": {"expr": to_source(small.expr), "expr_json": to_json(small.expr), "ops": [list(o) for o in small.ops]},
             "observed": small.obs_pretty(), "model": model_trace(run, small), "python": replay_snippet(small.expr, small.ops)}, found_input=False)
-    run.cov["arrayindex_stratum"] = {"cases": len(cases), "reviving": len(reviving), "attributed_to_C09_parrayindex_revives": known, "other": other}
+    run.cov["arrayindex_stratum"] = {"cases": len(cases), "reviving": len(reviving)}
 
 
 def check(run):
